@@ -210,7 +210,7 @@ func cfgAxes(dirs []string, fcs []string, caps []int, lats []time.Duration) []Wo
 	return out
 }
 
-var allDirs = []string{"forward", "reverse", "nested-ff", "nested-rf"}
+var allDirs = []string{"forward", "reverse", "nested-ff", "nested-rf", "nested-fr", "nested-rr"}
 var allFCs = []string{"on", "on", "cnofc", "snofc", "bothnofc", "legacy"}
 
 func pickCfg(rng *rand.Rand) WorldCfg {
